@@ -36,6 +36,7 @@ def run(index, rep):
     rep.guard(purity, food, rep)
     rep.guard(guards, food, rep)
     rep.guard(predicates, food, rep, index)
+    rep.guard(minimum_rule, index, rep)
     from .lanes import lane_rule
     rep.guard(lane_rule, index, rep, "C11.ARGLANE", ("kcals", "fat", "protein"), 500, "nutrient lanes crossed at a call")
 
@@ -141,6 +142,72 @@ def typestate(food, uc, rep):
     rep.require_min(rule, 5)
 
 
+# =============================================================================== C11.MIN
+
+
+def minimum_rule(index, rep):
+    """Food.min_elementwise evaluated for two single values and for two monthly series (generic entry): on every path each nutrient of the
+    result is one of the two operands' values for that nutrient and the path's own conditions imply it is <= both - whatever the
+    nutrient-inclusion flags say (a short cut through a predicate that ignores excluded nutrients returns numbers that are not the minimum)"""
+    from .symx import Interp, Obj, Path, PList, NArr, Unsupported, explore, Abort, leaf_implies
+    from .rat import Rat
+    from .nphooks import np_hook
+    rule = "C11.MIN"
+    cls, ucls = index.cls(FOOD, "Food"), index.cls(UC, "UnitConversions")
+    fn = index.func(FOOD, "Food.min_elementwise")
+    n_ok = 0
+    for monthly in (False, True):
+        def runit(it, monthly=monthly):
+            it.classes = {"Food": cls, "UnitConversions": ucls}
+
+            def hook(interp, d, a, kw, node):
+                if d == "Food":
+                    names = ["kcals", "fat", "protein", "kcals_units", "fat_units", "protein_units"]
+                    at = dict(zip(names, a))
+                    at.update(kw)
+                    return Obj(cls, at, "result")
+                if d in ("copy.deepcopy", "copy.copy") and len(a) == 1 and isinstance(a[0], Obj):
+                    return Obj(a[0].cls, dict(a[0].attrs), a[0].name)
+                return np_hook(interp, d, a, kw, node)
+
+            it.call_hook = hook
+            suf = " each month" if monthly else ""
+
+            def mk(n):
+                def val(l):
+                    a_ = Rat.atom((n, l))
+                    return NArr([(a_, Rat.atom(("N",)))]) if monthly else a_
+                u = ["billion kcals" + suf, "thousand tons" + suf, "thousand tons" + suf]
+                return Obj(cls, {"kcals": val("kcals"), "fat": val("fat"), "protein": val("protein"), "kcals_units": u[0], "fat_units": u[1],
+                                 "protein_units": u[2], "units": PList(u), "conversions": Path(("conv",))}, n)
+
+            return it.call_function(fn, [mk("a"), mk("b")], {}, None)
+
+        try:
+            leaves = [x for x in explore(runit, month_classes=False) if not isinstance(x[2], Abort)]
+        except Unsupported as e:
+            raise AnalysisError(f"Food.min_elementwise outside the analysed fragment: {e}")
+        bad = None
+        for _, dec, res, it in leaves:
+            for lane in LANES:
+                v = res.attrs.get(lane) if isinstance(res, Obj) else None
+                if isinstance(v, NArr) and len(v.segs) == 1:
+                    v = v.segs[0][0]
+                try:
+                    v = it.to_rat(v)
+                except Exception:
+                    bad = bad or f"{lane} of the result is {v!r}"
+                    continue
+                a_, b_ = Rat.atom(("a", lane)), Rat.atom(("b", lane))
+                if not ((v == a_ or v == b_) and leaf_implies(it, dec, v - a_, "<=") and leaf_implies(it, dec, v - b_, "<=")):
+                    cond = ", ".join(f"{k}={'T' if t else 'F'}" for k, t in dec.items())[:160]
+                    bad = bad or f"{lane} of the result is {v} on the path [{cond}], which does not make it the smaller of the two"
+            n_ok += 1
+        rep.check(bad is None and bool(leaves), rule, f"min_elementwise[{'monthly series' if monthly else 'single values'}]: every nutrient is the smaller operand's",
+                  f"the result is not the nutrient-wise minimum of the two quantities: {bad}", loc=loc(FOOD, fn))
+    rep.require_min(rule, 2)
+
+
 # =============================================================================== constructions
 
 
@@ -194,6 +261,10 @@ def local_defs(fn):
             d.setdefault(st.target.id, []).append(st.value)
         elif isinstance(st, ast.For) and isinstance(st.target, ast.Name):
             d.setdefault(st.target.id, []).append(st.iter)
+        elif isinstance(st, ast.For) and isinstance(st.target, (ast.Tuple, ast.List)):
+            for te in st.target.elts:
+                if isinstance(te, ast.Name):
+                    d.setdefault(te.id, []).append(st.iter)
         elif isinstance(st, ast.Call) and isinstance(st.func, ast.Attribute) and st.func.attr in ("append", "extend") \
                 and isinstance(st.func.value, ast.Name):
             d.setdefault(st.func.value.id, []).extend(st.args)
@@ -270,7 +341,29 @@ def classify_labels(c, defs):
             classes.append(e.value)
             continue
         if isinstance(e, ast.Attribute) and e.attr == lab and isinstance(e.value, ast.Name):
-            classes.append("self" if e.value.id == "self" else "param:" + e.value.id)
+            owner = e.value.id
+            params_c = [a.arg for a in c.fn.args.args]
+            if owner != "self" and owner not in params_c and owner in defs:
+                # a local that stands for one of the operands (`lower = food1 if ... else food2`): the operands' units are asserted equal
+                # by the guard rule, so its labels are the first such operand's
+                names_ = set()
+                plain = True
+                for d_ in defs[owner]:
+                    alts_ = [d_.body, d_.orelse] if isinstance(d_, ast.IfExp) else [d_]
+                    for a_ in alts_:
+                        if isinstance(a_, ast.Name) and a_.id in params_c:
+                            names_.add(a_.id)
+                        elif isinstance(a_, ast.Call) and dotted(a_.func) in ("copy.deepcopy", "copy.copy") and len(a_.args) == 1 \
+                                and isinstance(a_.args[0], ast.Name) and a_.args[0].id in params_c:
+                            names_.add(a_.args[0].id)
+                        elif isinstance(a_, (ast.Tuple, ast.List)) and all(
+                                isinstance(n_, (ast.Tuple, ast.List, ast.Load)) or (isinstance(n_, ast.Name) and n_.id in params_c) for n_ in ast.walk(a_)):
+                            names_ |= {n_.id for n_ in ast.walk(a_) if isinstance(n_, ast.Name)}      # `for lower, upper in ((p, q), (q, p))`
+                        else:
+                            plain = False
+                if plain and names_:
+                    owner = sorted(names_, key=params_c.index)[0]
+            classes.append("self" if owner == "self" else "param:" + owner)
             continue
         if isinstance(e, ast.BinOp) and isinstance(e.op, ast.Add) and isinstance(e.right, ast.Constant) \
                 and isinstance(e.left, ast.Attribute) and e.left.attr == lab and dotted(e.left.value) == "self":
@@ -565,6 +658,22 @@ def lanes(constructions, food, uc, rep):
         rep.check(not bad, rule, f"Food(...) in {c.method}#{_ordinal(c, sites)}",
                   "nutrient lanes cross: " + "; ".join(bad), loc=loc(FOOD if not c.method.startswith("UnitConversions") else UC, c.call),
                   detail=where)
+    # label transformers of UnitConversions (get_units_from_list_to_total, ...): label k of the result is computed from label k only
+    for name, fn in uc.items():
+        rets = [r for r in walk_no_nested(fn) if isinstance(r, ast.Return) and isinstance(r.value, (ast.List, ast.Tuple)) and len(r.value.elts) == 3]
+        if not (name.startswith("get_units") and rets):
+            continue
+        defs = local_defs(fn)
+        params = {a.arg for a in fn.args.args}
+        bad = []
+        for r in rets:
+            for k, e in enumerate(r.value.elts):
+                usedl = {a for _, a in attrs_used(closure_exprs(e, defs, params), LABELS)}
+                if usedl - {LABELS[k]}:
+                    bad.append(f"label {k} ({LABELS[k]}) is computed from {sorted(usedl - {LABELS[k]})}")
+        rep.check(not bad, rule, f"UnitConversions.{name}: label k from label k",
+                  "the three unit labels are not transformed independently: " + "; ".join(bad) + " (correct only while the three labels happen to "
+                  "have the same length / shape)", loc=loc(UC, fn))
     # operations that build their result through a constructing helper of the class: the helper's construction (judged above) is theirs
     constructing = {c.method for c in constructions}
     for name, fn in food.items():
@@ -934,16 +1043,45 @@ class BoolAbs:
                 series = g.generators[0].iter
                 body = _subst_name(g.elt, var, series)
                 return self.expr(body, env)
+        if isinstance(e, ast.Call) and dotted(e.func) in ("bool", "np.bool_") and len(e.args) == 1:
+            return self.expr(e.args[0], env)
         if isinstance(e, ast.Compare) and len(e.ops) == 1:
             return ("cmp", self.canon_cmp(e))
         raise AnalysisError(f"predicate {self.fn.name}: expression outside the boolean fragment: {norm_src(e)[:80]}")
+
+    def _operand(self, e):
+        """one spelling for the same operand: np.array(x) is x; round / np.round / np.around / a local one-line rounding helper are
+        `round(x, <decimals>)` (no decimals given = 0)"""
+        e = _strip_np(e)
+        locals_ = {n.name: n for n in self.fn.body if isinstance(n, ast.FunctionDef)}
+
+        class T(ast.NodeTransformer):
+            def visit_Call(self, n):
+                self.generic_visit(n)
+                d = dotted(n.func) or ""
+                if d in locals_ and len(locals_[d].body) == 1 and isinstance(locals_[d].body[0], ast.Return) and len(n.args) == len(locals_[d].args.args) \
+                        and not n.keywords:
+                    sub = dict(zip([a.arg for a in locals_[d].args.args], n.args))
+
+                    class S(ast.NodeTransformer):
+                        def visit_Name(self, x):
+                            return sub.get(x.id, x)
+                    return T().visit(S().visit(_detach(locals_[d].body[0].value)))
+                if d in ("round", "np.round", "np.around", "np.round_"):
+                    dec = n.args[1] if len(n.args) > 1 else next((k.value for k in n.keywords if k.arg in ("decimals", "ndigits")), ast.Constant(value=0))
+                    return ast.Call(func=ast.Name(id="round", ctx=ast.Load()), args=[_strip_np(n.args[0]), dec], keywords=[])
+                if d in ("np.array", "np.asarray") and len(n.args) == 1:
+                    return n.args[0]
+                return n
+
+        return T().visit(_detach(e))
 
     def canon_cmp(self, e):
         op = {ast.Gt: ">", ast.Lt: "<", ast.GtE: ">=", ast.LtE: "<=", ast.Eq: "==", ast.NotEq: "!="}.get(type(e.ops[0]))
         if op is None:
             raise AnalysisError("comparison operator outside the fragment")
-        left = _strip_np(e.left)
-        right = _strip_np(e.comparators[0])
+        left = self._operand(e.left)
+        right = self._operand(e.comparators[0])
         # one orientation: a > b is b < a
         if op in (">", ">="):
             left, right, op = right, left, {">": "<", ">=": "<="}[op]
